@@ -54,6 +54,14 @@ CHECKS = {
         "Trusted: pysam/htslib parsing for the differ (a file htslib itself cannot copy is skipped and counted); own text parser for the scan.",
         "DESIGN.md §3 C13",
     ),
+    "C14": (
+        "replay-model monitor: the input is replayed in order through a name->haplotype model built by an own list parser; "
+        "every output file is compared record by record with the expected sequence; partition and histogram identities",
+        "Thousands of generated read files / lists / option combinations are split by the real code; each output's exact record "
+        "sequence, the partition property and the histogram are judged per run.",
+        "Trusted: the 30-line replay model; pysam for reading BAM outputs; FASTQ compared as (name, comment, sequence, quality).",
+        "DESIGN.md §3 C14",
+    ),
     "C18": (
         "reference-model monitors (dict heap model, BFS components) + icontract forest invariant over "
         "bounded-exhaustive and random operation histories; ASan/UBSan lane",
